@@ -97,7 +97,8 @@ def clamp_double_precision(ctx: Ctx) -> None:
     import pfhedge.nn.functional as F
     from pfhedge.nn import Clamp, LeakyClamp
     dtype = torch.float64
-    x = torch.tensor([-2.0, 0.05, 0.1, 0.7, 1.3, 1.31, 5.0], dtype=dtype)
+    # (inputs far outside the interval too: the value there is the bound itself, not the input minus a rounded difference)
+    x = torch.tensor([-2.0, 0.05, 0.1, 0.7, 1.3, 1.31, 5.0, -1e6, 1e6, -1e12, 1e12], dtype=dtype)
     for lo, hi in ((0.1, 1.3), (-0.7, 0.3), (0.1, None), (None, 1.3), (1.3, 0.1)):
         for slope in (0.0, 0.01):
             for mode in ("mean", "max"):
@@ -134,6 +135,32 @@ def clamp_double_precision(ctx: Ctx) -> None:
                             ctx.violation(f"clamp:{name}:double-precision", f"{name} on float64 inputs with bounds ({lo}, {hi}) given as {spelling}: not the documented value to double precision "
                                           "(the bound itself outside the interval)", {"input": x[i].item(), "min": lo, "max": hi, "slope": slope, "mode": mode, "spelling": spelling,
                                                                                   "expected": want[i].item(), "observed": got.flatten()[i].item()})
+
+
+def ww_at_gamma_singularity(ctx: Ctx) -> None:
+    """Exactly at the money at expiry (or with zero volatility) the Black-Scholes gamma is infinite and so is the half-width of
+    the no-transaction band for any positive cost: the previous hedge lies inside the band and is kept, whatever it is."""
+    from pfhedge.instruments import BrownianStock, EuropeanOption
+    from pfhedge.nn import WhalleyWilmott
+    for dtype in (torch.float64, torch.float32):
+        for cost in (1e-3, 1e-1):
+            d = EuropeanOption(BrownianStock(cost=cost, dtype=dtype), strike=1.0)
+            m = WhalleyWilmott(d)
+            names = [str(f) for f in m.inputs()]
+            for t, v in ((0.0, 0.2), (0.25, 0.0), (0.0, 0.0)):
+                prev = torch.tensor([-0.75, 0.0, 0.3, 1.0, 2.5], dtype=dtype)
+                cols = {"log_moneyness": torch.zeros_like(prev), "time_to_maturity": torch.full_like(prev, t), "expiry_time": torch.full_like(prev, t),
+                        "volatility": torch.full_like(prev, v), "prev_hedge": prev}
+                try:
+                    x = torch.stack([cols[n] for n in names], dim=-1).unsqueeze(1)           # (N, 1, F)
+                    out = m(x).reshape(-1)
+                except Exception as e:
+                    ctx.violation("ww:gamma-singularity:raises", f"WhalleyWilmott raised {type(e).__name__} at the money at expiry / zero volatility", {"error": repr(e)[:200]})
+                    continue
+                ctx.count(("ww-singular", str(dtype), cost, t, v), n=len(prev))
+                if not torch.equal(out, prev):
+                    ctx.violation("ww:gamma-singularity", "WhalleyWilmott does not keep the previous hedge where the band is infinitely wide (at the money at expiry / zero volatility, positive cost)",
+                                  {"dtype": str(dtype), "cost": cost, "time_to_maturity": t, "volatility": v, "previous": prev.tolist(), "output": out.tolist()})
 
 
 def _module(cls, ctx: Ctx, name: str, kw: Dict[str, Any]):
@@ -359,6 +386,7 @@ def check(ctx: Ctx) -> None:
         raise MachineryError("no record")
     replay_clamp(ctx, rc.records)
     clamp_double_precision(ctx)
+    ww_at_gamma_singularity(ctx)
     replay_ww(ctx, rw.records, 8)
     replay_helpers(ctx, rw.records)
     for r in rc.records + rw.records:
